@@ -1,9 +1,118 @@
-import OdfModel.Xhtml
+/-
+  C18 — the XHTML and MoinMoin converters are total, complete and escape everything.
+
+  Models: `OdfModel.Xhtml` (odf/odf2xhtml.py), `OdfModel.Moin` (odf/odf2moinmoin.py); helper lemmas in
+  `OdfModel.XhtmlLemmas`.  Everything here is PARTIAL BY CONSTRUCTION: only the converters' supported vocabulary is
+  modelled (`Supported`), the style sheet text is an opaque parameter (`Cfg.cssText`), and the known findings
+  KF-C18-1 … are excluded by explicit hypotheses, each with a proved counter-example (`finding_*`).
+-/
+import OdfModel.XhtmlLemmas
 import OdfModel.Moin
 namespace OdfModel.Props.C18
-open OdfModel OdfModel.Xhtml
+open OdfModel OdfModel.Xml OdfModel.Xhtml OdfModel.Generated.Xhtml
 
-/-- placeholder while the model is being tied to the code -/
-theorem render_nil : render [] = [] := rfl
+/-! ## The supported documents -/
+
+/-- the three kinds of document body (text, spreadsheet, presentation): their handlers are `html_body` at the start and
+    `generate_footnotes` + `</body>` at the end -/
+def BodyH (hs he : HName) : Prop :=
+  (hs = .s_office_text ∧ he = .e_office_text) ∨ (hs = .s_office_spreadsheet ∧ he = .e_office_spreadsheet) ∨
+  (hs = .s_office_presentation ∧ he = .e_office_presentation)
+
+/-- **the quantifier of C18 as far as it is modelled**: a loaded document
+      office:document [ meta / settings / styles …,  office:body [ office:text | spreadsheet | presentation [ running text ] ] ]
+    whose head part only meets handlers that write nothing (`Head`), and whose body is running text of the supported
+    vocabulary (`Flow`: paragraphs, headings WITH a decimal outline level, spans, links with a target, lists, tables,
+    frames, text boxes, images, notes of the shape citation+body outside other notes, s/tab/line-break, bookmarks,
+    elements without handler such as sections, ignored elements). -/
+inductive Supported : Node → Prop
+  | mk (qd : Str) (ad : Attrs) (pre : List Node) (qb : Str) (ab : Attrs) (qt : Str) (at_ : Attrs) (blocks : List Node)
+      (hs he : HName) :
+      dispatch qd = (some .s_office_document_content, some .e_office_document_content) →
+      HeadL [(qd, ad)] pre → dispatch qb = (none, none) →
+      dispatch qt = (some hs, some he) → BodyH hs he → FlowL false blocks →
+      Supported (.elem qd ad (pre ++ [.elem qb ab [.elem qt at_ blocks]]))
+
+/-! ## total and balanced -/
+
+theorem runH_body_start (cfg : Cfg) (ctx : Ctx) {hs he : HName} (hb : BodyH hs he) (q : Str) (a : Attrs) (pe pc : Bool) (st : St) :
+    runH cfg ctx hs q a pe pc st = (htmlBody cfg st).map (fun s => (s, pe, pc)) := by
+  rcases hb with ⟨h, _⟩ | ⟨h, _⟩ | ⟨h, _⟩ <;> subst h <;> rfl
+
+theorem runH_body_end (cfg : Cfg) (ctx : Ctx) {hs he : HName} (hb : BodyH hs he) (q : Str) (a : Attrs) (pe pc : Bool) (st : St) :
+    runH cfg ctx he q a pe pc st =
+      (do let st ← generateFootnotes cfg st; closetag nBody true st : M St).map (fun s => (s, pe, pc)) := by
+  rcases hb with ⟨_, h⟩ | ⟨_, h⟩ | ⟨_, h⟩ <;> subst h <;> rfl
+
+/-- the body element: `</head><body>` … foot notes `</body>` -/
+theorem walk_body (cfg : Cfg) (ctx : Ctx) (st : St) (qt : Str) (at_ : Attrs) (blocks : List Node) {hs he : HName}
+    (hd : dispatch qt = (some hs, some he)) (hb : BodyH hs he) (hf : FlowL false blocks) (hpe : ctx.pe = true)
+    (hi : Inv false st) (hn : st.notes = []) (hdepth : 2 ≤ st.depth) :
+    ∃ st', walk cfg ctx st (.elem qt at_ blocks) = .ok st' ∧ st'.depth + 1 = st.depth ∧ st'.saved = st.saved ∧
+      ∀ s S, bal st.out s = some (nHead :: S) → bal st'.out s = some S := by
+  obtain ⟨st1, h1, hd1, hs1, hb1⟩ := htmlBody_spec cfg st (by omega)
+  have hi1 : Inv false st1 := ⟨by rw [hs1.saved]; exact hi.1, by rw [hs1.nbOpen]; exact hi.2.1, by rw [hs1.cur, hs1.notes]; exact hi.2.2⟩
+  obtain ⟨st2, h2, e2⟩ := walkList_flow cfg blocks false ⟨(qt, at_) :: ctx.stack, true, ctx.pc⟩ st1 hf rfl (by simp) hi1
+  obtain ⟨N, hN, okN, _⟩ := e2.notes
+  have hn2 : NotesOK st2.notes := by rw [hN, hs1.notes, hn]; simpa using okN
+  obtain ⟨st3, h3, hd3, hs3, hb3⟩ := generateFootnotes_spec cfg st2 hn2
+  have hdep3 : 0 < st3.depth := by rw [hd3, e2.depth, hd1]; omega
+  refine ⟨closePure nBody true st3, ?_, ?_, ?_, ?_⟩
+  · rw [walk_elem _ _ _ _ _ _ hpe]
+    simp only [startEl, endEl, hd, runH_body_start cfg ctx hb, runH_body_end cfg ctx hb, h1, Except.map, hpe, h2, if_true,
+      bind, Except.bind, h3, closetag_ok _ _ _ hdep3]
+  · simp; rw [hd3, e2.depth, hd1]; omega
+  · simp; rw [hs3.saved, e2.saved, hs1.saved]
+  · intro s S h
+    have := hb3 s _ (e2.stack s _ (hb1 s S h))
+    simp [bal_append, this, bal, br]
+
+/-- what `s_office_document_content` writes first -/
+def docStart : List Tok :=
+  [.raw .doctype, .otag nHtml [(aXmlns, sXhtmlNs)] true, .otag nHead [] true,
+   .etag nMeta [(aHttpEquiv, sContentType), (aContent, sTextHtml)], .raw .titleOpen, .raw .titleClose]
+
+theorem doc_start (cfg : Cfg) (ctx : Ctx) (q : Str) (a : Attrs) (pe pc : Bool) :
+    ∃ st1, runH cfg ctx .s_office_document_content q a pe pc St.init = .ok (st1, pe, pc) ∧ st1.out = docStart ∧
+      st1.depth = 2 ∧ st1.saved = none ∧ st1.nbOpen = false ∧ st1.notes = [] ∧ st1.cur = 0 :=
+  ⟨_, rfl, rfl, rfl, rfl, rfl, rfl, rfl⟩
+
+/-- **C18 (total, balanced) — partial**: for every supported document (see `Supported`) and both settings of
+    generate_css, whatever the opaque style sheet text is, the conversion raises no exception and the token sequence it
+    writes is a Dyck word: every start handler's tag is closed by the matching end handler, properly nested, foot notes
+    included.  Outside the statement: unsupported vocabulary, and the classes of the known findings (a heading without
+    outline level is not `Supported`: `finding_heading_without_level`). -/
+theorem total_balanced_partial (cfg : Cfg) (doc : Node) (h : Supported doc) :
+    ∃ toks, convert cfg doc = .ok toks ∧ Dyck toks := by
+  cases h with
+  | mk qd ad pre qb ab qt at_ blocks hs he hdd hpre hdb hdt hbody hflow =>
+    obtain ⟨st1, hr1, ho1, hdep1, hsv1, hnb1, hno1, hcu1⟩ := doc_start cfg ⟨[], true, true⟩ qd ad true true
+    obtain ⟨st2, h2, q2⟩ := walkList_head cfg pre ⟨[(qd, ad)], true, true⟩ st1 hpre
+    have hi2 : Inv false st2 := ⟨by rw [q2.saved, hsv1]; rfl, by rw [q2.nbOpen, hnb1], by rw [q2.cur, q2.notes, hcu1, hno1]; rfl⟩
+    obtain ⟨st3, h3, hd3, hs3, hb3⟩ := walk_body cfg ⟨(qb, ab) :: [(qd, ad)], true, true⟩ st2 qt at_ blocks hdt hbody hflow rfl hi2
+      (by rw [q2.notes, hno1]) (by rw [q2.depth, hdep1]; exact Nat.le_refl 2)
+    have hbal3 : bal st3.out [] = some [nHtml] := by
+      apply hb3
+      rw [q2.out, ho1]; rfl
+    have hdep3 : 0 < st3.depth := by rw [q2.depth, hdep1] at hd3; omega
+    refine ⟨(closePure nHtml true st3).out, ?_, ?_⟩
+    · unfold convert
+      rw [walk_elem _ _ _ _ _ _ rfl]
+      simp only [startEl, endEl, hdd, hr1, walkList_append, h2, walkList]
+      rw [walk_elem _ _ _ _ _ _ rfl]
+      simp only [startEl, endEl, hdb, walkList, h3, if_true, runH, closetag_ok _ _ _ hdep3, Except.map]
+    · show bal (st3.out ++ [Tok.ctag nHtml true]) [] = some []
+      simp [bal_append, hbal3, bal, br]
+
+/-- **C18 (total) — partial**: a supported document is converted without exception -/
+theorem total_partial (cfg : Cfg) (doc : Node) (h : Supported doc) : ∀ e, convert cfg doc ≠ .error e := by
+  obtain ⟨toks, ht, _⟩ := total_balanced_partial cfg doc h
+  intro e he; rw [ht] at he; cases he
+
+/-- **C18 (balanced) — partial**: the token sequence of a supported document is a Dyck word -/
+theorem balanced_partial (cfg : Cfg) (doc : Node) (h : Supported doc) (toks : List Tok) (ht : convert cfg doc = .ok toks) :
+    Dyck toks := by
+  obtain ⟨toks', ht', hd⟩ := total_balanced_partial cfg doc h
+  rw [ht] at ht'; cases ht'; exact hd
 
 end OdfModel.Props.C18
